@@ -28,6 +28,8 @@
 (*  S.pool[r] = [used, cap]    S.waitq = devices waiting for resources     *)
 (*  S.lost    = <<dev, part>> pairs reported lost by failures              *)
 (*  S.cnt[label][d], S.lastlevel[d], S.lastres[r]: recorded datapoints     *)
+(*  S.mt      = the maintainer: [queue, active, util, value, nvh, enter,   *)
+(*              start, finish]; an order is <<target device, tag>>         *)
 (*  S.nleaf   = number of leaf parts generated so far                      *)
 (*  S.occ, S.sd = what the callbacks registered on the devices saw during  *)
 (*              the last step (receipts, finished parts; shutdown and      *)
@@ -54,7 +56,7 @@ Resources == DOMAIN cfg.pools
 
 PrioOf(kind) == CASE kind = "finish" -> 80 [] kind = "pass" -> 70 [] kind = "release" -> 60
                   [] kind = "fail" -> 50 [] kind = "check" -> 110 [] kind = "term" -> 10
-                  [] kind = "restore" -> 90 [] OTHER -> 20
+                  [] kind = "restore" -> 90 [] kind = "mstart" -> 30 [] kind = "mfinish" -> 100 [] OTHER -> 20
 
 (***************************************************************************)
 (* Initial state                                                           *)
@@ -83,7 +85,8 @@ S0 == [now |-> 0,
        lastlevel |-> [d \in Devs |-> None],
        lastres |-> [r \in Resources |-> <<0, cfg.pools[r]>>],
        nleaf |-> 0, inited |-> FALSE,
-       occ |-> <<>>, sd |-> <<>>]
+       occ |-> <<>>, sd |-> <<>>,
+       mt |-> [queue |-> <<>>, active |-> <<>>, util |-> 0, value |-> 0, nvh |-> 0, enter |-> 0, start |-> 0, finish |-> 0]]
 
 (***************************************************************************)
 (* Queue                                                                   *)
@@ -468,6 +471,40 @@ Adjust(S, s, v) ==
              S1 == [S EXCEPT !.dev[s].budget = Max(@ + v, S.dev[s].supplied)] IN
          IF wasEmpty THEN SchedulePass(S1, s) ELSE S1
 
+(* Maintainer: work orders on processors (default start_work = shutdown, end_work = restore);    *)
+(* the configuration gives every processor a duration, needed capacity and cost per order       *)
+MtId == -1000
+TagNo(tag) == IF tag = "y" THEN 1 ELSE 0
+OrderArg(o) == o[1] * 10 + TagNo(o[2])
+OrderOf(arg) == <<arg \div 10, IF arg % 10 = 1 THEN "y" ELSE "x">>
+WoCap(d) == cfg.devs[d].wocap
+MtCap == IF cfg.maintcap = None THEN 1000000 ELSE cfg.maintcap
+RECURSIVE ScanOrders(_, _)
+ScanOrders(S, i) ==
+    IF i > Len(S.mt.queue) THEN S
+    ELSE LET o == S.mt.queue[i] IN
+         IF S.mt.util <= MtCap - WoCap(o[1]) /\ ~\E a \in Range(S.mt.active) : a[1] = o[1]
+         THEN ScanOrders(SchedArg([S EXCEPT !.mt.queue = RemoveAt(@, i), !.mt.active = Append(@, o),
+                                            !.mt.util = @ + WoCap(o[1])],
+                                  S.now, MtId, "mstart", 30, OrderArg(o)), i)
+         ELSE ScanOrders(S, i + 1)
+CreateOrder(S, d, tag) ==
+    IF \E o \in Range(S.mt.queue) \cup Range(S.mt.active) : o = <<d, tag>> THEN S
+    ELSE ScanOrders([S EXCEPT !.mt.queue = Append(@, <<d, tag>>), !.mt.enter = @ + 1], 1)
+StartOrder(S, arg) ==
+    LET o == OrderOf(arg)
+        d == o[1]
+        c == cfg.devs[d].wocost
+        S1 == [S EXCEPT !.mt.start = @ + 1, !.mt.value = @ - c, !.mt.nvh = IF c = 0 THEN @ ELSE @ + 1]
+        S2 == Shutdown(S1, d, FALSE, 0) IN
+    SchedArg(S2, S.now + cfg.devs[d].wodur, MtId, "mfinish", 100, arg)
+FinishOrder(S, arg) ==
+    LET o == OrderOf(arg)
+        d == o[1]
+        S1 == Restore(S, d)
+        i == CHOOSE j \in DOMAIN S1.mt.active : S1.mt.active[j] = o IN
+    ScanOrders([S1 EXCEPT !.mt.util = @ - WoCap(d), !.mt.active = RemoveAt(@, i), !.mt.finish = @ + 1], 1)
+
 Script(S, c) ==
     CASE c.call = "fail"     -> SchedArg(S, S.now + c.arg, c.dev, "fail", 50, 0)
       [] c.call = "shutdown" -> Shutdown(S, c.dev, FALSE, 0)
@@ -477,6 +514,7 @@ Script(S, c) ==
       [] c.call = "addres"   -> AddRes(S, c.res, c.arg)
       [] c.call = "adjust"   -> Adjust(S, c.dev, c.arg)
       [] c.call = "noise"    -> AddValue(S, c.dev, c.arg)
+      [] c.call = "workorder" -> CreateOrder(S, c.dev, c.res)
       [] OTHER -> S
 
 (* the clock moves: uptime and utilisation of every processor follow *)
@@ -498,6 +536,8 @@ Dispatch(S, e) ==
            [] e.kind = "fail"    -> Fail(S1, e.asset)
            [] e.kind = "check"   -> CheckPending(S1)
            [] e.kind = "script"  -> Script(S1, cfg.script[e.arg])
+           [] e.kind = "mstart"  -> StartOrder(S1, e.arg)
+           [] e.kind = "mfinish" -> FinishOrder(S1, e.arg)
            [] OTHER -> S1
 
 (* System.simulate, first call: initialise every asset in creation order; schedule the script *)
